@@ -26,7 +26,8 @@ Class(q, a, r) ==
             /\ Cardinality({o \in VisO \cup lobjs : o.sha = x.s /\ o.t = (IF q = "blob_id" THEN "blob" ELSE "tree")}) > 1
          THEN <<"raises-on-shared-sha", r.s>> ELSE <<"raises", r.s>>
     ELSE IF q = "git_sha" /\ r.k = "set" /\ y.k = "set" /\ SeqSet(r.l) # {} /\ SeqSet(r.l) \subseteq y.e
-         THEN <<"keeps-some-of-shared-sha", IF Kinds(y.e) = {"blob"} THEN "blob" ELSE IF Kinds(y.e) = {"tree"} THEN "tree" ELSE "mixed">>
+         THEN <<"keeps-some-of-shared-sha", IF Kinds(y.e) = {"blob"} THEN "blob" ELSE IF Kinds(y.e) = {"tree"} THEN "tree"
+                                            ELSE IF Kinds(y.e) = {"commit"} THEN "commit" ELSE "mixed">>
     ELSE IF q = "missing" /\ r.k = "set" /\ wg /\ SeqSet(r.l) = Lookup(commits, objs, q, a).e
          THEN <<"ignores-open-write-group", "-">>
     ELSE IF x.k = "exc" THEN <<"answers-unknown-key", r.k>>
